@@ -61,6 +61,7 @@ struct high_resolution_clock
 #endif
 
 #include "../sim/world_common.hpp"
+#include "../sim/aligned_new.hpp" // (blocks are overwritten when they are given back: a record that points into one shows it)
 #include "rlbox_noop_sandbox.hpp"
 #include <functional>
 #include <memory>
@@ -620,6 +621,17 @@ struct Runner
     own.clear();
     for (auto& s : sb)
       attempt([&] { s->destroy_sandbox(); });
+#ifdef TR_TIMING
+    // the records outlive the incarnation they were taken in (end-of-run statistics): each still names its function
+    for (int s = 0; s < nsbx && !c.stop; s++)
+      for (auto& rec : sb[(size_t)s]->process_and_get_transition_times())
+        if (rec.invoke == rlbox::rlbox_transition::INVOKE && BT<Sbx>::fn_name() &&
+            (!rec.name || (strncmp(rec.name, "g_multi", 8) != 0 && strncmp(rec.name, "g_not_exported", 15) != 0))) {
+          c.violate("C19", "timing_record_lost_its_identity_after_destroy@tree", "an INVOKE record of sandbox #%d no longer carries the name of the function once the sandbox is destroyed", s);
+          break;
+        }
+    c.probe("timing_records_read_after_destroy");
+#endif
   }
   static inline AbortCtl* g_guest_ctl = nullptr;
   size_t reads_before_root = 0;
